@@ -15,6 +15,11 @@ import (
 	"time"
 )
 
+var graceS = 2
+
+// oblSlots bounds the number of obligations whose scripts are materialised at once (memory).
+var oblSlots = make(chan struct{}, 8)
+
 const ufDecls = `
 (declare-fun bit_and (Int Int) Int)
 (declare-fun bit_or (Int Int) Int)
@@ -29,6 +34,7 @@ const ufDecls = `
 (declare-fun closure_bind (Int Int) Int)
 (declare-fun iface_str (Int) Str)
 (declare-fun fnref (Int) Int)
+(declare-fun err_is_range (Int) Bool)
 (assert (forall ((k Int)) (! (< (fnref k) 0) :pattern ((fnref k)))))
 (assert (forall ((a Str) (b Str)) (! (not (and (strlt a b) (strlt b a))) :pattern ((strlt a b) (strlt b a)))))
 (assert (forall ((a Str)) (! (not (strlt a a)) :pattern ((strlt a a)))))
@@ -103,11 +109,7 @@ func runSolver(ctx context.Context, sp solverSpec, file string, timeoutS int) (s
 }
 
 // Discharge runs all obligations of fc. Phase 1: one incremental z3-new session; phase 2: portfolio on the rest.
-func (w *World) Discharge(fc *FnCtx, scratch string, timeoutS int, only func(*Obligation) bool, jobs chan struct{}) error {
-	header, err := w.scriptHeader(fc)
-	if err != nil {
-		return err
-	}
+func (w *World) Discharge(fc *FnCtx, header string, scratch string, timeoutS int, only func(*Obligation) bool, jobs chan struct{}) error {
 	var todo []*Obligation
 	for _, o := range fc.obls {
 		if only == nil || only(o) {
@@ -179,8 +181,10 @@ func (w *World) Discharge(fc *FnCtx, scratch string, timeoutS int, only func(*Ob
 		o := o
 		idx := idx
 		wg.Add(1)
+		oblSlots <- struct{}{}
 		go func() {
 			defer wg.Done()
+			defer func() { <-oblSlots }()
 			var body strings.Builder
 			body.WriteString(header)
 			for i := 0; i < o.LogLen; i++ {
@@ -207,17 +211,30 @@ func (w *World) Discharge(fc *FnCtx, scratch string, timeoutS int, only func(*Ob
 				}()
 			}
 			best := ans{st: "unknown"}
-			for range solvers {
-				a := <-ch
-				if a.st == "unsat" {
-					best = a
+			got := 0
+			var grace <-chan time.Time
+		wait:
+			for got < len(solvers) {
+				select {
+				case a := <-ch:
+					got++
+					if a.st == "unsat" {
+						best = a
+						cancel()
+						break wait
+					}
+					if a.st == "sat" && best.st != "sat" {
+						best = a
+					} else if best.solver == "" {
+						best = a
+					}
+					if got == len(solvers)-1 && grace == nil {
+						// two solvers gave up: the last one gets a short grace period only
+						grace = time.After(time.Duration(graceS) * time.Second)
+					}
+				case <-grace:
 					cancel()
-					break
-				}
-				if a.st == "sat" && best.st != "sat" {
-					best = a
-				} else if best.solver == "" {
-					best = a
+					break wait
 				}
 			}
 			o.Status = best.st
